@@ -180,6 +180,35 @@ PROPS = {
         real_vs_stub=L_REAL,
         assumptions=SIM_ASSUME + ["crypto/rand is replaced by a seeded stream; the quality of the real random source is not examined"],
     ),
+    "C01": dict(
+        pkg="cmd/restic", test="TestVerifC01", level="exploration", quick_s=60, thorough_s=900,
+        text="generated source trees (non-UTF-8, quote, backslash, control-character and U+2028 names, empty, sparse and multi-chunk files, symlinks "
+             "with non-UTF-8 targets, fifos, block and character devices, hard-link groups, xattrs, pre-epoch and far-future nanosecond mtimes, setuid/"
+             "setgid/sticky modes, owners) are backed up by the real runBackup from the simulated source FS and restored by the real runRestore into "
+             "a scratch directory on tmpfs, crossed with format 1/2, compression, pack size, connections, read concurrency 1-8, 1-8 virtual cores and "
+             "the seeded schedule of savers, pack uploads and pack downloads; a third of the runs adds transient errors that the retry layer absorbs; "
+             "every restored entry is compared with the model: name, type, content, link target, device number, mode bits, mtime, owner, xattrs, hard-link grouping",
+        note="input breadth comes from the generator (sampled); the simulator contributes the schedule x configuration cross product; pack sizes "
+             "16 KiB-4 MiB through a knob instead of 4-128 MiB; runs as root; xattr comparison only if the scratch file system supports user xattrs (recorded)",
+        design_ref="3 / C01",
+        rule="one run = configuration x generated rich tree x read concurrency x seeded schedule (x transient faults); distinct = distinct event-log "
+             "hash among runs with a real scheduling choice or fired fault",
+        real_vs_stub=L_REAL + "; restore target is a real directory on tmpfs written by the real restorer",
+        assumptions=SIM_ASSUME,
+    ),
+    "C41": dict(
+        pkg="cmd/restic", test="TestVerifC41", level="exploration", quick_s=60, thorough_s=900,
+        text="schedule independence of the tree encoding: the same generated rich source tree is backed up into three repositories that share the "
+             "chunker parameters, each under a different seeded schedule, virtual core count, read concurrency and source-read yield setting; the root "
+             "tree IDs and the sets of tree blobs must be identical, every tree blob decoded independently has its entries strictly sorted by name, "
+             "and every node decodes unchanged (name and link-target bytes, type, mode, times, owner, device, xattrs, content) through the real read path",
+        note="decoding fidelity of every node field for adversarial values (unknown JSON keys, NUL bytes, huge values) is input-driven and only sampled "
+             "by the generator; that part is not what the simulator adds",
+        design_ref="3 / C41",
+        rule="one run = configuration x generated rich tree x three backups under different schedules/concurrency; distinct = distinct event-log hash",
+        real_vs_stub=L_REAL,
+        assumptions=SIM_ASSUME,
+    ),
     "C15": dict(
         pkg="cmd/restic", test="TestVerifC15", level="exploration", quick_s=60, thorough_s=900,
         text="generated histories of 2-8 operations over backup, forget, prune, forget --prune, tag, rewrite --exclude, key add/passwd and repair "
